@@ -12,7 +12,7 @@ class _Resp:
     def __init__(self, code, payload):
         from aiocoap.numbers.codes import Code
 
-        self.code = {"changed": Code.CHANGED, "notfound": Code.NOT_FOUND}[code]
+        self.code = {"changed": Code.CHANGED, "notfound": Code.NOT_FOUND, "badreq": Code.BAD_REQUEST, "unauth": Code.UNAUTHORIZED, "unavail": Code.SERVICE_UNAVAILABLE}[code]
         self.payload = payload
 
 
